@@ -235,6 +235,51 @@ pub fn run(ctx: &Ctx) -> Report {
         });
         rep.merge(r);
     }
+    // ---- a client of another character set: the text of a QUERY / `USE` / PREPARE / INIT_DB is not UTF-8
+    //      (latin1 `caf\xe9`), sent in lock-step. The unchanged library gives up on the connection; a
+    //      library that answers instead has to flush that answer before it waits for the next command
+    let n = if ctx.miri { 2 } else { ctx.n(400, 6000) };
+    let r = par_cases(ctx, "C12", "text-in-another-character-set", n, |rng, i, rep| {
+        let mut cmds = Vec::new();
+        let mut scripts = Vec::new();
+        for k in 0..rng.below(3) {
+            cmds.push(Cmd::query(format!("q{}", k).as_bytes()));
+            scripts.push(Script::Q(QProg::completed(k, 0)));
+        }
+        let bad: &[u8] = match rng.below(4) {
+            0 => b"SELECT 'caf\xe9'",
+            1 => b"\xff\xfe",
+            2 => b"name_\xe9t\xe9",
+            _ => b"x\xc3",
+        };
+        let (kind, cmd) = match i % 4 {
+            0 => ("COM_QUERY", Cmd::query(bad)),
+            1 => ("USE as a query", Cmd::query(&[b"USE `".as_slice(), bad, b"`"].concat())),
+            2 => ("COM_STMT_PREPARE", Cmd::prepare(bad)),
+            _ => ("COM_INIT_DB", Cmd::init_db(bad)),
+        };
+        cmds.push(cmd);
+        scripts.push(Script::Q(QProg::completed(9, 9)));
+        if rng.bool() {
+            cmds.push(Cmd::ping());
+        }
+        let mut case = Case::new(cmds, scripts);
+        case.arrival = Arrival::Pipelined(1);
+        if rng.bool() {
+            let (input, _) = case.input();
+            let sk = *rng.pick(&[SchedKind::OneByte, SchedKind::HeaderCuts, SchedKind::Random]);
+            case.sched = make_sched(rng, sk, &input);
+        }
+        let obs = run_case(&case);
+        rep.evaluations += 1;
+        rep.counters.class(format!("text that is not UTF-8 in {}, lock-step", kind));
+        let d = || J::obj().set("commands", kinds_summary(&case.cmds)).set("command_with_the_text", kind).set("text", show(bad)).set("outcome", obs.outcome.describe());
+        if i < 2 {
+            rep.sample(d());
+        }
+        check(&obs, rep, &d);
+    });
+    rep.merge(r);
     // ---- a client that asks for TLS from a shim that offers none, and then waits: whatever the server
     //      has to say to that (the unchanged library says nothing and ends the connection) is flushed
     //      before the server reads again. In the build without the library's tls feature the refusal
